@@ -190,7 +190,8 @@ def report(ctx, cases, verdicts):
     for c in cases:
         st, clause, _ = verdicts[c["tid"]]
         if clause.startswith("machinery:"):
-            raise tlc.MachineryError("%s on %s" % (clause, json.dumps(strip(c))[:400]))
+            ctx.undecided("%s on %s" % (clause, json.dumps(strip(c))[:400]))
+            continue
         ctx.count()
         if c["k"] == "v":
             cls = vd.value_class(c["_fr"], c["out"])
